@@ -258,7 +258,7 @@ func (s *Solver) Check(extra []*Term, vars []*Term) (Result, map[string]string) 
 	s.send("(check-sat)")
 	lines, err := s.readUntilMarker()
 	res := Unknown
-	hadErr := err != nil
+	hadErr := err != nil && !s.dead // a watchdog kill / solver exit is a timeout, not a rejected query
 	for _, l := range lines {
 		switch {
 		case strings.HasPrefix(l, "(error"):
